@@ -358,6 +358,13 @@ pub fn run_prop(ctx: &Ctx) -> Option<PropResult> {
         "C03" => Some(crate::props2::c03(ctx)),
         "C04" => Some(crate::props2::c04(ctx)),
         "C05" => Some(crate::props2::c05(ctx)),
+        "C06" => Some(crate::props4::c06(ctx)),
+        "C09" => Some(crate::props4::c09(ctx)),
+        "C11" => Some(crate::props4::c11(ctx)),
+        "C12" => Some(crate::props5::c12(ctx)),
+        "C13" => Some(crate::props5::c13(ctx)),
+        "C19" => Some(crate::props5::c19(ctx)),
+        "C18" => Some(crate::props5::c18(ctx)),
         "C10" => Some(crate::props3::c10(ctx)),
         "C14" => Some(crate::props3::c14(ctx)),
         "C15" => Some(crate::props3::c15(ctx)),
